@@ -82,14 +82,14 @@ theorem inv_crash {s : St} (h : DurSafe s) : Inv s.crash ∧ s.crash.live = none
     · intro n; exact Nat.le_refl _
     · intro m hm; cases hm
 
-/-- every prefix of a list of steps ends in a crash-safe state -/
-def SafeAlong (s : St) (l : List FsOp) : Prop := ∀ k, DurSafe (s.run (l.take k))
+/-- every prefix of a list of steps ends in a state satisfying `C` -/
+def Along (C : St → Prop) (s : St) (l : List FsOp) : Prop := ∀ k, C (s.run (l.take k))
 
-theorem safeAlong_nil {s : St} (h : DurSafe s) : SafeAlong s [] := by
+theorem along_nil {C : St → Prop} {s : St} (h : C s) : Along C s [] := by
   intro k; simpa [St.run] using h
 
-theorem safeAlong_cons {s : St} {op : FsOp} {l : List FsOp} (h : DurSafe s) (hl : SafeAlong (s.apply op) l) :
-    SafeAlong s (op :: l) := by
+theorem along_cons {C : St → Prop} {s : St} {op : FsOp} {l : List FsOp} (h : C s) (hl : Along C (s.apply op) l) :
+    Along C s (op :: l) := by
   intro k
   cases k with
   | zero => simpa [St.run] using h
@@ -98,8 +98,8 @@ theorem safeAlong_cons {s : St} {op : FsOp} {l : List FsOp} (h : DurSafe s) (hl 
 theorem run_append (s : St) (a b : List FsOp) : s.run (a ++ b) = (s.run a).run b := by
   simp [St.run, List.foldl_append]
 
-theorem safeAlong_append {s : St} {a b : List FsOp} (ha : SafeAlong s a) (hb : SafeAlong (s.run a) b) :
-    SafeAlong s (a ++ b) := by
+theorem along_append {C : St → Prop} {s : St} {a b : List FsOp} (ha : Along C s a) (hb : Along C (s.run a) b) :
+    Along C s (a ++ b) := by
   intro k
   rw [List.take_append]
   rw [run_append]
@@ -110,6 +110,15 @@ theorem safeAlong_append {s : St} {a b : List FsOp} (ha : SafeAlong s a) (hb : S
   · have : a.take k = a := List.take_of_length_le (by omega)
     rw [this]
     exact hb _
+
+/-- every prefix of a list of steps ends in a crash-safe state -/
+abbrev SafeAlong (s : St) (l : List FsOp) : Prop := Along DurSafe s l
+
+theorem safeAlong_nil {s : St} (h : DurSafe s) : SafeAlong s [] := along_nil h
+theorem safeAlong_cons {s : St} {op : FsOp} {l : List FsOp} (h : DurSafe s) (hl : SafeAlong (s.apply op) l) :
+    SafeAlong s (op :: l) := along_cons h hl
+theorem safeAlong_append {s : St} {a b : List FsOp} (ha : SafeAlong s a) (hb : SafeAlong (s.run a) b) :
+    SafeAlong s (a ++ b) := along_append ha hb
 
 /-! ### publishing a directory: SaveCurrentDBDirName + ReplaceCurrentDBFile -/
 
@@ -663,5 +672,113 @@ theorem open_new_ok {s : St} {n : Name} (h : Inv s) (he : Enabled s (.open n)) (
       subst this; rfl
   · rw [hrun]; simp [St.liveIdx, sF, Content.idx]
   · rw [hrun]; exact hl0
+
+
+/-! ### installing a snapshot is atomic w.r.t. crashes (C08) -/
+
+/-- the durable `current` names the old directory `m` (whose durable store is what it was when the
+recovery started) or the new one `n` (whose durable store is the snapshot state `j`) -/
+def OldOrNew (m n : Name) (d : Content) (j : Nat) (s' : St) : Prop :=
+  s'.dirD = true ∧ ((s'.curD = some ⟨some m, some m⟩ ∧ (s'.pd m).dur = d) ∨
+                    (s'.curD = some ⟨some n, some n⟩ ∧ (s'.pd n).dur = .db j))
+
+theorem install_atomic {s : St} {m n : Name} {d : Content} {j : Nat}
+    (hc : s.cur = some ⟨some m, some m⟩) (hcd : s.curD = some ⟨some m, some m⟩) (hdd : s.dirD = true)
+    (hm : (s.pd m).dur = d) (hn : (s.pd n).dur = .db j) :
+    Along (OldOrNew m n d j) s (publish n ++ [.setLive n, .removeUpd, .removeOthers]) := by
+  have old : ∀ s' : St, s'.dirD = true → s'.curD = some ⟨some m, some m⟩ → s'.pd = s.pd → OldOrNew m n d j s' :=
+    fun s' a b c => ⟨a, Or.inl ⟨b, by rw [c]; exact hm⟩⟩
+  have new : ∀ s' : St, s'.dirD = true → s'.curD = some ⟨some n, some n⟩ → s'.pd = s.pd → OldOrNew m n d j s' :=
+    fun s' a b c => ⟨a, Or.inr ⟨b, by rw [c]; exact hn⟩⟩
+  unfold publish
+  refine along_cons (old _ hdd hcd rfl) (along_cons (old _ hdd hcd rfl) (along_cons (old _ hdd hcd rfl)
+    (along_cons (old _ hdd hcd rfl) (along_cons (old _ hdd hc rfl) (along_cons (old _ hdd hc rfl)
+    (along_cons (new _ hdd rfl rfl) (along_cons (new _ hdd rfl rfl) (along_cons (new _ hdd rfl rfl)
+    (along_nil (new _ hdd rfl rfl))))))))))
+
+theorem recoverSnap_atomic {s : St} {n : Name} {j : Nat} (h : Inv s) (he : Enabled s (.recoverSnap n j))
+    (m : Name) (hm : s.live = some m) :
+    Along (OldOrNew m n (s.pd m).dur j) s (ops s (.recoverSnap n j)) := by
+  obtain ⟨_, hne, hnd⟩ := he
+  obtain ⟨hc, hcd, hme, hmd, hl, hdd⟩ := h.liveFacts hm
+  have hmn : m ≠ n := fun e => hne (e ▸ hme)
+  let s2 : St := { s with ents := n :: s.ents, pd := fun k => if k = n then ⟨.db j, .db j⟩ else s.pd k }
+  have e1 : ((s.apply (.dbOpen n)).apply (.dbIngest n j)) = s2 := by
+    simp only [St.apply, hne, if_false, St.setPd, s2]
+    congr 1
+    funext k
+    by_cases hk : k = n <;> simp [hk]
+  have hops : ops s (.recoverSnap n j) = [.dbOpen n, .dbIngest n j] ++ (publish n ++ [.setLive n, .removeUpd, .removeOthers]) := by
+    simp [ops]
+  rw [hops]
+  refine along_append ?_ ?_
+  · refine along_cons ⟨hdd, Or.inl ⟨hcd, rfl⟩⟩ (along_cons ⟨?_, Or.inl ⟨?_, ?_⟩⟩ (along_nil ?_))
+    · simp [St.apply, hne, St.setPd, hdd]
+    · simp [St.apply, hne, St.setPd, hcd]
+    · simp [St.apply, hne, St.setPd, hmn]
+    · rw [e1]; exact ⟨hdd, Or.inl ⟨hcd, by simp [s2, hmn]⟩⟩
+  · show Along _ ((s.apply (.dbOpen n)).apply (.dbIngest n j)) _
+    rw [e1]
+    exact install_atomic (s := s2) hc hcd hdd (by simp [s2, hmn]) (by simp [s2])
+
+theorem recoverCkpt_atomic {s : St} {n : Name} {j : Nat} (h : Inv s) (he : Enabled s (.recoverCkpt n j))
+    (m : Name) (hm : s.live = some m) :
+    Along (OldOrNew m n (s.pd m).dur j) s (ops s (.recoverCkpt n j)) := by
+  obtain ⟨_, hne, hnd⟩ := he
+  obtain ⟨hc, hcd, hme, hmd, hl, hdd⟩ := h.liveFacts hm
+  have hmn : m ≠ n := fun e => hne (e ▸ hme)
+  let s2 : St := { s with ents := n :: s.ents, pd := fun k => if k = n then ⟨.db j, .db j⟩ else s.pd k }
+  have e1 : (((s.apply (.mkDb n)).apply (.dbFiles n j)).apply (.dbOpen n)) = s2 := by
+    simp only [St.apply, hne, if_false, St.setPd, s2, List.mem_cons, true_or, if_true]
+    congr 1
+    funext k
+    by_cases hk : k = n <;> simp [hk, Content.idx]
+  have hops : ops s (.recoverCkpt n j) =
+      [.mkDb n, .dbFiles n j, .dbOpen n] ++ (publish n ++ [.setLive n, .removeUpd, .removeOthers]) := by
+    simp [ops]
+  rw [hops]
+  refine along_append ?_ ?_
+  · refine along_cons ⟨hdd, Or.inl ⟨hcd, rfl⟩⟩ (along_cons ⟨?_, Or.inl ⟨?_, ?_⟩⟩ (along_cons ⟨?_, Or.inl ⟨?_, ?_⟩⟩ (along_nil ?_)))
+    · simp [St.apply, hne, St.setPd, hdd]
+    · simp [St.apply, hne, St.setPd, hcd]
+    · simp [St.apply, hne, St.setPd, hmn]
+    · simp [St.apply, hne, St.setPd, hdd]
+    · simp [St.apply, hne, St.setPd, hcd]
+    · simp [St.apply, hne, St.setPd, hmn]
+    · rw [e1]; exact ⟨hdd, Or.inl ⟨hcd, by simp [s2, hmn]⟩⟩
+  · show Along _ (((s.apply (.mkDb n)).apply (.dbFiles n j)).apply (.dbOpen n)) _
+    rw [e1]
+    exact install_atomic (s := s2) hc hcd hdd (by simp [s2, hmn]) (by simp [s2])
+
+/-- what `Open` finds after a crash in a state where the durable `current` names `x` -/
+theorem reopen_finds {s : St} (hs : DurSafe s) {x : Name} (hdd : s.dirD = true) (hcd : s.curD = some ⟨some x, some x⟩)
+    (n' : Name) (hfresh : n' ∉ s.crash.ents ∧ n' ∉ s.crash.entsD) :
+    (s.crash.run (ops s.crash (.open n'))).live = some x ∧
+    (s.crash.run (ops s.crash (.open n'))).liveIdx = some (s.pd x).dur.idx := by
+  obtain ⟨hI, hl, _⟩ := inv_crash hs
+  have hcur : s.crash.cur = some ⟨some x, some x⟩ := by
+    unfold St.crash; rw [if_pos hdd]; simp [hcd]
+  have hname : s.crash.curName = some x := by simp [St.curName, hcur]
+  obtain ⟨m, h1, h2, h3, h4⟩ := hI.volCur _ hcur
+  have hmx : m = x := (Option.some.inj h1).symm
+  subst hmx
+  have hops : ops s.crash (.open n') = [.mkTableDir, .syncAnc, .removeUpd, .removeOthers, .dbOpen m, .setLive m] := by
+    simp [ops, hcur, hname]
+  have hpd : (s.crash.pd m) = ⟨(s.pd m).dur, (s.pd m).dur⟩ := by
+    unfold St.crash; rw [if_pos hdd]
+  rw [hops]
+  have e4 : (((s.crash.apply .mkTableDir).apply .syncAnc).apply .removeUpd).apply .removeOthers =
+      { s.crash with dirV := true, dirD := true, upd := none, ents := s.crash.ents.filter (fun k => some m == some k) } := by
+    simp only [St.apply, St.curName, hcur, Option.bind_some]
+  have hmem : m ∈ s.crash.ents.filter (fun k => some m == some k) := by rw [List.mem_filter]; exact ⟨h3, by simp⟩
+  have e6 : s.crash.run [.mkTableDir, .syncAnc, .removeUpd, .removeOthers, .dbOpen m, .setLive m] =
+      { s.crash with dirV := true, dirD := true, upd := none, ents := s.crash.ents.filter (fun k => some m == some k),
+                     live := some m,
+                     pd := fun k => if k = m then ⟨.db (s.pd m).dur.idx, .db (s.pd m).dur.idx⟩ else s.crash.pd k } := by
+    show ((((((s.crash.apply .mkTableDir).apply .syncAnc).apply .removeUpd).apply .removeOthers).apply (.dbOpen m)).apply (.setLive m)) = _
+    rw [e4]
+    simp only [St.apply, hmem, if_true, St.setPd, hpd]
+  rw [e6]
+  exact ⟨rfl, by simp [St.liveIdx, Content.idx]⟩
 
 end Regatta.Crash
